@@ -1,6 +1,8 @@
 //! `exhaust`: exhaustive enumeration of component behaviour against reference models (seam S1).
 
 pub mod cubic;
+pub mod ring;
+pub mod segsizes;
 pub mod rtte;
 pub mod seqnr;
 pub mod wire;
@@ -14,6 +16,8 @@ pub fn replay(v: &Value) -> i32 {
         "wire" => wire::replay(r),
         "cubic" => cubic::replay(r),
         "rtte" => rtte::replay(r),
+        "ring" => ring::replay(r),
+        "segsizes" => segsizes::replay(r),
         other => crate::common::machinery_error(&format!("unknown exhaust check {other:?}")),
     }
 }
